@@ -107,6 +107,12 @@ inductive Ev where
   | mwait (ok : Bool)                -- TasksManager.Wait returned (ok = nil)
   | fin (t : Nat) (ok : Bool)        -- after mwait: task t of the manager's table has no errors (ok)
   | root (ok : Bool)                 -- root scope Err() = nil at the very end
+  | hacc (h : Nat)                   -- try goroutine: `Runner.Run` for handler h returned nil (the handler task exists)
+  | hrej (h : Nat)                   -- … returned an error (the manager refused the submission)
+  | stall (t : Nat)                  -- harness gate controller: it held one handler of a try block at its first command
+                                     --   and waited generously for the fate of handler t (first command / close / refusal
+                                     --   of a submission of that try) — nothing happened.  The model never emits it
+                                     --   (`Props/C16.stall_free`); the monitor accepts it only after a cause of failure
 deriving DecidableEq, Repr
 
 /-! ### Dynamic state -/
@@ -276,9 +282,9 @@ def stepStop (g : Graph) (s : St) (t : Nat) : Option St :=
 def submitHandler (g : Graph) (s : St) (y : Nat) (h : Option Nat) (sel : Bool) (next : TG) : St :=
   match h, sel with
   | some h, true =>
-    if canCreate g s h then { s with pc := upd s.pc h (.waiting 0), tg := upd s.tg y next }
-    else { s with pc := upd s.pc h .rejected, cerr := upd s.cerr (g.ctx (g.tryd y).owner) true,
-                  tg := upd s.tg y .done }
+    if canCreate g s h then emit { s with pc := upd s.pc h (.waiting 0), tg := upd s.tg y next } (.hacc h)
+    else emit { s with pc := upd s.pc h .rejected, cerr := upd s.cerr (g.ctx (g.tryd y).owner) true,
+                       tg := upd s.tg y .done } (.hrej h)
   | _, _ => { s with tg := upd s.tg y next }
 
 def stepTry (g : Graph) (s : St) (y : Nat) : Option St :=
@@ -416,16 +422,36 @@ def cmdDoneOk (g : Graph) (pre : List Ev) (t i : Nat) : Prop :=
   | some (.try_ y) => hasDone pre (g.tryd y).body ∧ ∀ h ∈ selected g pre y, Ev.done h true ∈ pre
   | _ => True
 
-/-- command `i` of `t` returned and everything it started has closed; the selected handlers of a
-try block did run unless the surrounding context (or the root) has a cause of failure -/
+def isHandler (g : Graph) (t : Nat) : Bool :=
+  match g.role t with
+  | .hsucc _ => true
+  | .hfail _ => true
+  | .hfin _ => true
+  | _ => false
+
+/-- The fate of a handler `h` of try `y` that has to run, as seen when the owner of the try closes.
+Either it STARTED (first command entered), or one of two EVENTS sealed its fate — and the clause of
+that event (`Ok`) demands the cause of failure strictly BEFORE the event:
+* it was accepted by the manager and closed without having started: `done h false` needs a cause of
+  failure in the handler's (= the owner's) context or in the root context among the events before it
+  (RunLoop took the `<-Done()` branch before the first command);
+* a handler submission of this try was refused: `hrej` needs a cause in the ROOT context before it
+  (the manager refuses submissions once the root scope is done; the try goroutine then stops submitting).
+A failure that happens later — in particular a failure of another handler of the same try after
+this one could have started — excuses nothing: an event-order condition, not an end-of-trace one. -/
+def handlerFate (g : Graph) (pre : List Ev) (y h : Nat) : Prop :=
+  Ev.cmd h 0 ∈ pre ∨ (Ev.hacc h ∈ pre ∧ Ev.done h false ∈ pre) ∨ ∃ h' ∈ g.handlers y, Ev.hrej h' ∈ pre
+
+/-- command `i` of `t` returned and everything it started has closed; every handler of a try block
+that was started or accepted has closed, and every selected handler has met its fate (`handlerFate`) -/
 def cmdClosed (g : Graph) (pre : List Ev) (t i : Nat) : Prop :=
   hasRet pre t i ∧
   (Ev.ret t i true ∈ pre →
     match g.cmdAt t i with
     | some (.spawn c) => hasDone pre c
     | some (.try_ y) => hasDone pre (g.tryd y).body ∧
-        (∀ h ∈ g.handlers y, Ev.cmd h 0 ∈ pre → hasDone pre h) ∧
-        (∀ h ∈ selected g pre y, Ev.cmd h 0 ∈ pre ∨ causeFor g pre t)
+        (∀ h ∈ g.handlers y, (Ev.cmd h 0 ∈ pre ∨ Ev.hacc h ∈ pre) → hasDone pre h) ∧
+        (∀ h ∈ selected g pre y, handlerFate g pre y h)
     | _ => True)
 
 def retOk (g : Graph) (pre : List Ev) (t i : Nat) (ok : Bool) : Prop :=
@@ -455,6 +481,9 @@ def Ok (g : Graph) (pre : List Ev) : Ev → Prop
       (if ok then ∀ u ∈ List.range g.n, Ev.done u false ∈ pre → g.ctx u ≠ g.ctx t else causeFor g pre t)
   | .root ok => hasMwait pre ∧
       (if ok then ∀ u ∈ List.range g.n, Ev.done u false ∈ pre → g.ctx u ≠ 0 else causeIn g 0 pre)
+  | .hacc h => isHandler g h = true ∧ submitted g pre h
+  | .hrej h => isHandler g h = true ∧ submitted g pre h ∧ causeIn g 0 pre
+  | .stall t => isHandler g t = true ∧ causeFor g pre t
 
 /-- second group of clauses: an error report is *exactly* a task of that context having closed with
 an error (the converse of the `if ok` branches of `Ok`) -/
@@ -484,6 +513,8 @@ instance (g : Graph) (pre : List Ev) (t : Nat) : Decidable (submitted g pre t) :
 instance (g : Graph) (pre : List Ev) (t : Nat) : Decidable (waitsOk g pre t) := by unfold waitsOk; infer_instance
 instance (g : Graph) (pre : List Ev) (t i : Nat) : Decidable (cmdDoneOk g pre t i) := by
   unfold cmdDoneOk; split <;> infer_instance
+instance (g : Graph) (pre : List Ev) (y h : Nat) : Decidable (handlerFate g pre y h) := by
+  unfold handlerFate; infer_instance
 instance (g : Graph) (pre : List Ev) (t i : Nat) : Decidable (cmdClosed g pre t i) := by
   unfold cmdClosed; split <;> infer_instance
 instance (g : Graph) (pre : List Ev) (t i : Nat) (ok : Bool) : Decidable (retOk g pre t i ok) := by
@@ -506,6 +537,109 @@ def accepts (g : Graph) (tr : List Ev) : Bool := acceptsFrom g [] tr
 def firstBad (g : Graph) (pre : List Ev) : List Ev → Option (Nat × Ev)
   | [] => none
   | e :: rest => if Ok g pre e ∧ Ok2 g pre e then firstBad g (pre ++ [e]) rest else some (pre.length, e)
+
+/-! ### Steered schedules: the harness's gate controller holds one handler of a try block
+
+A single free-running trace cannot tell "the finally handler NEVER starts while the selected handler
+is still running" from "it sometimes does not": the schedule has to be steered.  The harness holds
+the FIRST command of one handler of a try block at a gate (after its `cmd h 0` event, before the
+command returns) until it has SEEN the fate of the other one — its first command, its close, or a
+refused submission of that try, all of them events of the trace.  The controller waits generously;
+only when nothing whatsoever can move any more does its wait expire, and then it records
+`stall <awaited handler>` and lets the held handler go.  `Props/C16.stall_free`: in the model that
+never happens — under every steering policy and every schedule the awaited fate stays reachable
+without the held handler.  An implementation that queues one handler behind the other (through a
+wait list, a lock, a sequential `Wait`) stalls. -/
+
+/-- how the controller steers one try block -/
+inductive Steer where
+  | free
+  | holdSel (untilDone : Bool)   -- the first command of the selected (fail / success) handler is held until the
+                                 --   finally handler has started (`false`) / has closed (`true`)
+  | holdFin (untilDone : Bool)   -- the first command of the finally handler is held until the selected handler has
+                                 --   started / has closed
+deriving DecidableEq, Repr
+
+/-- the handler of try `y` that has to run besides `finally`, read off the trace like the controller does -/
+def selectedH (g : Graph) (tr : List Ev) (y : Nat) : Option Nat :=
+  if Ev.done (g.tryd y).body false ∈ tr then (g.tryd y).fail
+  else if Ev.done (g.tryd y).body true ∈ tr then (g.tryd y).succ
+  else none
+
+/-- the controller has seen the fate of handler `w` of try `y` -/
+def fateSeen (g : Graph) (tr : List Ev) (y w : Nat) (untilDone : Bool) : Bool :=
+  (!untilDone && decide (Ev.cmd w 0 ∈ tr)) || decide (hasDone tr w) ||
+  (g.handlers y).any fun h' => decide (Ev.hrej h' ∈ tr)
+
+/-- for whom the handler `h` is made to wait in its first command: (try, awaited handler, until its close) -/
+def heldFor (g : Graph) (pol : Nat → Steer) (tr : List Ev) (h : Nat) : Option (Nat × Nat × Bool) :=
+  match g.role h with
+  | .hfin y =>
+    match pol y with
+    | .holdFin d => (selectedH g tr y).map fun w => (y, w, d)
+    | _ => none
+  | .hfail y =>
+    match pol y with
+    | .holdSel d => (g.tryd y).fin.map fun w => (y, w, d)
+    | _ => none
+  | .hsucc y =>
+    match pol y with
+    | .holdSel d => (g.tryd y).fin.map fun w => (y, w, d)
+    | _ => none
+  | _ => none
+
+/-- the step of the runner of `h` that lets its first command return is held back by the gate -/
+def blocked (g : Graph) (pol : Nat → Steer) (s : St) : Label → Bool
+  | .task h =>
+    s.pc h == .inCmd 0 &&
+      match heldFor g pol s.tr h with
+      | some (y, w, d) => !fateSeen g s.tr y w d
+      | none => false
+  | _ => false
+
+/-- the system under a steering policy, without time-outs (what the driver simulates) -/
+def stepS (g : Graph) (pol : Nat → Steer) (s : St) (l : Label) : Option St :=
+  if blocked g pol s l then none else step g s l
+
+def sysS (g : Graph) (pol : Nat → Steer) : LTS.Sys St Label := ⟨init, stepS g pol⟩
+
+/-- every label that can ever be enabled -/
+def labels (g : Graph) : List Label :=
+  .main :: ((List.range g.n).map .task ++ (List.range g.n).map .stop ++ (List.range g.tries.length).map .tryg)
+
+/-- the controller with its time-out: `rel` = handlers it let go after a stall -/
+structure CSt where
+  st  : St
+  rel : List Nat
+
+inductive CLabel where
+  | sys (l : Label)
+  | timeout (h : Nat)        -- the wait on behalf of the held handler `h` expires
+deriving DecidableEq, Repr
+
+def blockedC (g : Graph) (pol : Nat → Steer) (c : CSt) (l : Label) : Bool :=
+  blocked g pol c.st l && !(match l with | .task h => c.rel.contains h | _ => false)
+
+def stepSysC (g : Graph) (pol : Nat → Steer) (c : CSt) (l : Label) : Option St :=
+  if blockedC g pol c l then none else step g c.st l
+
+/-- nothing can move: here, and only here, the generous wait of the controller expires -/
+def quiescent (g : Graph) (pol : Nat → Steer) (c : CSt) : Bool :=
+  (labels g).all fun l => (stepSysC g pol c l).isNone
+
+def stepC (g : Graph) (pol : Nat → Steer) (c : CSt) : CLabel → Option CSt
+  | .sys l => (stepSysC g pol c l).map fun s' => { c with st := s' }
+  | .timeout h =>
+    if blockedC g pol c (.task h) && quiescent g pol c then
+      match heldFor g pol c.st.tr h with
+      | some (_, w, _) => some { st := emit c.st (.stall w), rel := h :: c.rel }
+      | none => none
+    else none
+
+def sysC (g : Graph) (pol : Nat → Steer) : LTS.Sys CSt CLabel := ⟨⟨init, []⟩, stepC g pol⟩
+
+/-- the state after a schedule of the steered system with time-outs -/
+def runC (g : Graph) (pol : Nat → Steer) (sched : List CLabel) : CSt := (sysC g pol).run sched
 
 /-! ### The defect of the pinned tree: a rejected submission stays in the table with its latch armed
 
